@@ -242,3 +242,8 @@ def search(ctx, hints, broken):
 
 def replay(ctx, payload):
   return oracle(payload["input"])
+
+# --- second build round: additions to the claimed level
+LEVEL_TEXT += ("; the polynomial part of the GP mean gradient is discharged: every entry of build_grad_polynomial_tensor is the partial derivative of the "
+               "corresponding entry of build_polynomial_matrix (Model/Poly.v, tied by exact correspondence)")
+TECHNIQUE += " + in-Coq differential correspondence for the polynomial builders"
